@@ -128,6 +128,7 @@ func (w *World) lowerFunc(pkg *Pkg, key string, fd *ast.FuncDecl, fc *FuncContra
 	if fc != nil && fc.NoSweep {
 		e.sweep = false
 	}
+	e.useDep = w.usesDep(key, fc)
 	res := &FuncResult{Key: key, Short: e.short, Proc: proc, Env: e}
 	e.snapB = proc.NewBlock("snapshots")
 	proc.Entry = e.snapB
@@ -407,4 +408,36 @@ func (e *Env) memFrame(fc *FuncContract, key string, sig *types.Signature, entry
 	oldMem := e.mem().Subst(e.entryOld)
 	e.assert(Forall([]*Term{r}, Implies(And(conds...), Eq(Select(e.mem(), r), Select(oldMem, r)))),
 		"frame", "mem", []string{"C13"}, "only byte arrays owned by the modifies roots (or freshly allocated) are written", fmt.Sprintf("%s:%d", fc.File, fc.Line))
+}
+
+
+var depWords = []string{"dep(", "WF(", "WFP(", "LS(", "frag(", "depConst(", "inv("}
+
+// usesDep reports whether the contract (or a type invariant) of the function
+// talks about the envelope-depth function, in which case array updates
+// instantiate LemmaDepCong.
+func (w *World) usesDep(key string, fc *FuncContract) bool {
+	if fc == nil {
+		return false
+	}
+	for _, cl := range fc.Clauses {
+		for _, d := range depWords {
+			if strings.Contains(cl.Text, d) {
+				return true
+			}
+		}
+	}
+	for tk, ti := range w.Cs.TypeInvs {
+		tn := tk[strings.LastIndex(tk, ".")+1:]
+		if strings.Contains(key, "(*"+tn+")") || strings.Contains(key, "."+tn+".") {
+			for _, cl := range ti.Clauses {
+				for _, d := range depWords {
+					if strings.Contains(cl.Text, d) {
+						return true
+					}
+				}
+			}
+		}
+	}
+	return false
 }
